@@ -206,6 +206,62 @@ def pair_failure(a, b, sa, sb):
     return None
 
 
+def self_failure(o):
+    """Reflexivity on ONE object, whatever its fields hold (a constant that is not equal to itself
+    must not make the node unequal to itself): ==, !=, hash, set and dict membership."""
+    try:
+        if not (o == o):
+            return "reflexivity", "o == o is False for one and the same object"
+        if o != o:
+            return "reflexivity", "o != o is True for one and the same object"
+        if hash(o) != hash(o):
+            return "hash-changed", "two hash() calls differ"
+        if o not in {o} or {o: 1}.get(o) != 1 or o not in [o] or o not in (o,):
+            return "dict-lookup", "the object does not find itself as set / dict / list member"
+        c = copy.copy(o)
+        if hash(c) != hash(o):
+            return "hash-differs", "a copy hashes differently"
+    except RecursionError:
+        raise
+    except Exception as e:  # noqa: BLE001
+        return f"self-raises:{type(e).__name__}", f"raised {e!r}"
+    return None
+
+
+def _nan_objects():
+    import numpy as np
+    import pymbolic.primitives as p
+    x = p.Variable("x")
+    out = []
+    for nname, mk in (("float-nan", lambda: float("nan")), ("np-nan", lambda: np.float64("nan")),
+                      ("complex-nan", lambda: complex(float("nan"), 0.0))):
+        out += [
+            (f"Power({nname}, 2)", lambda mk=mk: p.Power(mk(), 2)),
+            (f"Power(x, {nname})", lambda mk=mk: p.Power(x, mk())),
+            (f"Quotient({nname}, x)", lambda mk=mk: p.Quotient(mk(), x)),
+            (f"Subscript(a, {nname})", lambda mk=mk: p.Subscript(p.Variable("a"), mk())),
+            (f"If(x, {nname}, 0)", lambda mk=mk: p.If(x, mk(), 0)),
+            (f"Comparison(x, <, {nname})", lambda mk=mk: p.Comparison(x, "<", mk())),
+            (f"CSE({nname})", lambda mk=mk: p.CommonSubexpression(mk())),
+            (f"Sum((x, {nname}))", lambda mk=mk: p.Sum((x, mk()))),
+            (f"Call(f, ({nname},))", lambda mk=mk: p.Call(p.Variable("f"), (mk(),))),
+            (f"Sum((x, Power({nname}, 2)))", lambda mk=mk: p.Sum((x, p.Power(mk(), 2)))),
+            (f"LogicalNot({nname})", lambda mk=mk: p.LogicalNot(mk())),
+        ]
+    import vf.usercls_gen as u
+    for cname in ("ExpD1", "ExpL", "SumD1", "SumL", "ExpDI"):
+        info = u.CLASSES.get(cname)
+        if info is None:
+            continue
+        vals = {"children": (x, 1), "u": float("nan")}
+        out.append((f"{cname}(u=nan)",
+                    lambda info=info, vals=vals: info["cls"](*[vals[f] for f in info["fields"]])))
+    return out
+
+
+NAN_OBJECTS = _nan_objects()
+
+
 def immutability_failure(obj, spec):
     import pymbolic.primitives as p
     if not isinstance(obj, p.Expression):
@@ -450,8 +506,9 @@ class C01(Check):
     assumptions = [
         "the reference reads fields by dataclasses.fields / __getinitargs__ only and compares "
         "constants with Python's == (1 == 1.0 == True)",
-        "float nan constants inside fields are excluded (tuple identity short-cut); NaN nodes are "
-        "included",
+        "float nan constants inside fields are excluded from the cross-object matrix (tuple "
+        "identity short-cut); NaN nodes are included; objects with nan fields are checked for "
+        "reflexivity on one object only",
         "under -O the immutability clause is not asserted (the statement says 'in the default "
         "interpreter mode')",
         "state canon = history with exact repeats removed (an operation repeated on the same "
@@ -484,8 +541,13 @@ class C01(Check):
         def life():
             for nm in names:
                 yield ("life", nm)
+
+        def selfcmp():
+            for i in range(len(NAN_OBJECTS)):
+                yield ("self", i)
         return [("class-definitions", classdefs), ("pairs", pool_items),
-                ("immutability", immut), ("lifetimes", life), ("histories", hist)]
+                ("immutability", immut), ("self-comparison", selfcmp), ("lifetimes", life),
+                ("histories", hist)]
 
     def pool(self):
         fams = all_families()
@@ -531,6 +593,15 @@ class C01(Check):
             f = pair_failure(a, b, to_spec(a), to_spec(b))
             if f:
                 r.fail(f[0], f"{f[0]}|{show(to_spec(a))}|{show(to_spec(b))}", f[1])
+            return r
+        if kind == "self":
+            name, mk = NAN_OBJECTS[item[1]]
+            o = mk()
+            r.evals += 1
+            r.keys.append(item)
+            f = self_failure(o)
+            if f:
+                r.fail(f[0], f"{f[0]}|{name}", f"{name}: {f[1]}")
             return r
         fams = all_families()
         base, variants = fams[item[1]]
